@@ -482,6 +482,91 @@ pub fn spaces(tier: Tier) -> Vec<Space> {
             }
         }));
     }
+    // (a8) every opcode inside a conditional: in the first or the ELSE branch of IF / NOTIF, taken or not taken, with exactly
+    // the operands it needs below the condition; then run to the end. In a branch that is not taken nothing may happen.
+    {
+        let (vals, specs) = (vals.clone(), specs.clone());
+        let ns = specs.len() as u64;
+        v.push(Space::new("opcode-in-branch", ns * 2 * 2 * 2 * 3, move |case, acc| {
+            let c = crate::engine::coords(case.idx, &[ns, 2, 2, 2, 3]);
+            let spec = &specs[c[0] as usize];
+            let (notif, in_else, cond_true) = (c[1] == 1, c[2] == 1, c[3] == 1);
+            let main: Stack = (0..spec.arity).map(|i| vals[(1 + i * 2 + c[4] as usize * 5) % vals.len()].clone()).collect();
+            if huge_operand(spec.op, &main) {
+                return;
+            }
+            let mut toks = pushes_for(&main, &vec![]);
+            toks.push(Tok::Op(if cond_true { 0x51 } else { 0x00 }));
+            toks.push(Tok::Op(if notif { 0x64 } else { 0x63 }));
+            if in_else {
+                toks.push(Tok::Op(0x67));
+            }
+            toks.push(Tok::Op(spec.op));
+            if !in_else {
+                toks.push(Tok::Op(0x67));
+            }
+            toks.push(Tok::Op(0x68));
+            toks.push(Tok::Op(0x74));
+            let desc = || json!({"op": opname(spec.op), "opener": if notif { "NOTIF" } else { "IF" }, "branch": if in_else { "else" } else { "first" }, "condition": cond_true, "initial_stack": show_stack(&main)});
+            if let Some(d) = check_program(&toks, acc, case, &desc) {
+                report(acc, case, &toks, &d, &desc);
+            }
+        }));
+    }
+    // (a9) mixed driving: k single steps, then run() to completion (and run() once more) must end in the reference's final
+    // stacks - for every conditional program of (d) and every k
+    {
+        let progs = Arc::new(conditional_programs(thorough));
+        let np = progs.len() as u64;
+        v.push(Space::new("step-then-run", np * 3 * 12, move |case, acc| {
+            let c = crate::engine::coords(case.idx, &[np, 3, 12]);
+            let (name, body) = &progs[c[0] as usize];
+            let cond = [Tok::Op(0x51), Tok::Op(0x00), Tok::Push(vec![0x80])][c[1] as usize].clone();
+            let mut toks = vec![cond];
+            toks.extend(body.iter().cloned());
+            let k = c[2] as usize;
+            let reference = ri::run(&toks);
+            if !matches!(reference.end, End::Completed) {
+                return;
+            }
+            let Some(want) = reference.states.last().map(|(_, m, a)| (m.clone(), a.clone())) else { return };
+            acc.evaluations += 1;
+            acc.transitions += k as u64 + 2;
+            acc.traces += 1;
+            acc.nontrivial_structural += 1;
+            let bytes = rs::serialize(&toks);
+            let res = crate::engine::guard(|| -> Result<(bool, Stack, Stack, bool, Stack), String> {
+                let s = bsv::Script::from_bytes(&bytes).map_err(|e| e.to_string())?;
+                let mut it = bsv::Interpreter::from_script(&s);
+                for _ in 0..k {
+                    match it.next() {
+                        Some(Ok(_)) => {}
+                        _ => break,
+                    }
+                }
+                let r1 = it.run().is_ok();
+                let st = it.state();
+                let (m1, a1) = (st.stack.clone(), st.alt_stack.clone());
+                let r2 = it.run().is_ok();
+                let m2 = it.state().stack.clone();
+                Ok((r1, m1, a1, r2, m2))
+            });
+            let input = json!({"program": name, "script_hex": hex::encode(&bytes), "single_steps_before_run": k});
+            match res {
+                Ok(Ok((r1, m1, a1, r2, m2))) => {
+                    acc.outcome(&[b'm', r1 as u8, (m1 == want.0) as u8]);
+                    if !r1 || m1 != want.0 || a1 != want.1 {
+                        acc.violate("C14/run/kind=differs-after-single-steps", case.idx, case.json(input.clone()), format!("after {} steps run() -> ok={} main={}; reference final main={}", k, r1, show_stack(&m1), show_stack(&want.0)));
+                    }
+                    if r2 && m2 != want.0 {
+                        acc.violate("C14/run/kind=second-run-changes-the-stack", case.idx, case.json(input), format!("second run() left main={}; reference final main={}", show_stack(&m2), show_stack(&want.0)));
+                    }
+                }
+                Ok(Err(_)) => {}
+                Err(p) => acc.violate(format!("C14/run/kind=panic@{}", crate::engine::panic_site(&p)), case.idx, case.json(input), p),
+            }
+        }));
+    }
     // (b) alt stack: every opcode with a non-empty alt stack (must stay untouched) and FROMALTSTACK/TOALTSTACK round trips
     {
         let (vals, specs) = (vals.clone(), specs.clone());
